@@ -50,6 +50,7 @@ class Contract:
     defaults: dict[str, Any] = field(default_factory=dict)
     trusted: bool = False  # contract of code that is NOT verified by the proof rung (assumption; listed)
     note: str = ""
+    static: bool = False  # staticmethod: a call through an instance or the class does not pass the receiver
     cases: dict[str, Callable] = field(default_factory=dict)  # proof by cases: name -> (S,a)->Bool (must be exhaustive)
 
     @property
@@ -229,10 +230,13 @@ class Engine:
             self.oblige(st, f"raises[{ex.exc}]-only-when-specified", goal, ex.line, "raise")
 
     def feasible(self, st: State) -> bool:
+        """Cheap path pruning: only the quantifier-free part of the path condition is consulted (sound: a path is
+        dropped only if that part alone is unsatisfiable)."""
         s = z3.Solver()
         s.set("timeout", self.feas_ms)
         for h in st.pc:
-            s.add(h)
+            if not _has_quantifier(h):
+                s.add(h)
         return s.check() != z3.unsat
 
     def do_raise(self, st: State, exc: str, line, cond=None):
@@ -440,8 +444,10 @@ class Engine:
         mods = sorted(_assigned(node.body) | _target_names(node.target))
         a = self.pre
 
+        entry = self._ns(st.env)
+
         def inv(s: State, k):
-            return spec.inv(SYM, a, self._ns(s.env, _n=n, _k=k), k)
+            return spec.inv(SYM, a, self._ns(s.env, _n=n, _k=k, _entry=entry), k)
 
         # establishment
         for name, cl in inv(st, z3.IntVal(0)).items():
@@ -624,6 +630,11 @@ class Engine:
             raise Unsupported(f"attribute assignment .{tgt.attr}", node)
         if isinstance(tgt, ast.Subscript):
             base = self.eval(tgt.value, st)
+            if isinstance(base.ty, TRec) and isinstance(tgt.slice, ast.Constant) and tgt.slice.value in base.ty.fields:
+                fty = base.ty.fields[tgt.slice.value]
+                v = self.coerce(v, fty, st, node)
+                self.assign(tgt.value, Val(base.ty, base.ty.set(base.t, tgt.slice.value, v.t), True), st, node)
+                return
             if isinstance(base.ty, TDict):
                 ty = base.ty
                 k = self.coerce(self.eval(tgt.slice, st), ty.key, st, node)
@@ -699,6 +710,8 @@ class Engine:
         base = self.eval(node.value, st)
         if isinstance(node.slice, ast.Slice):
             return self.slice_seq(base, node.slice, st, node)
+        if isinstance(base.ty, TRec) and isinstance(node.slice, ast.Constant) and node.slice.value in base.ty.fields:
+            return base.ty.get(base.t, node.slice.value)
         key = self.eval(node.slice, st)
         if isinstance(base.ty, TSeq):
             idx = self.index(base, key, st, node)
@@ -755,6 +768,16 @@ class Engine:
         return v
 
     def e_Dict(self, node, st, hint=None):
+        if node.keys and isinstance(hint, TRec) and all(isinstance(k, ast.Constant) and isinstance(k.value, str)
+                                                       for k in node.keys):
+            # a dict literal with constant string keys used as a record (sort given by contract.locals_)
+            got = {k.value: v for k, v in zip(node.keys, node.values)}
+            if set(got) != set(hint.fields):
+                raise Unsupported("record-like dict literal with unexpected keys", node)
+            fields = {}
+            for name, fty in hint.fields.items():
+                fields[name] = self.coerce(self.eval(got[name], st, hint=fty), fty, st, node).t
+            return Val(hint, hint.mk(**fields), True)
         if node.keys:
             raise Unsupported("non-empty dict literal", node)
         if not isinstance(hint, TDict):
@@ -1159,7 +1182,7 @@ class Engine:
                 return b(node, st, hint)
             if f.id in self.registry:
                 args = [self.eval(a, st) for a in node.args]
-                kw = {k.arg: self.eval(k.value, st) for k in node.keywords}
+                kw = self._kwargs(node, st)
                 return self.apply_contract(self.registry[f.id], args, kw, st, node)
             raise Unsupported(f"call to {f.id} (no contract)", node)
         if isinstance(f, ast.Attribute):
@@ -1219,15 +1242,35 @@ class Engine:
         self._post_vals = post_vals
         return r
 
+    def _kwargs(self, node: ast.Call, st: State) -> dict:
+        kw = {}
+        for k in node.keywords:
+            v = self.eval(k.value, st)
+            if k.arg is None:  # **record
+                if not isinstance(v.ty, TRec):
+                    raise Unsupported("** of a non-record", node)
+                for fname in v.ty.fields:
+                    kw[fname] = v.ty.get(v.t, fname)
+            else:
+                kw[k.arg] = v
+        return kw
+
     def method_call(self, node: ast.Call, st: State, hint=None) -> Val:
         f: ast.Attribute = node.func
-        recv = self.eval(f.value, st)
         name = f.attr
+        if isinstance(f.value, ast.Name) and f.value.id not in st.env and f"{f.value.id}.{name}" in self.registry:
+            c = self.registry[f"{f.value.id}.{name}"]  # call through the class: Resources._convert_to_gb(x)
+            if not c.static:
+                raise Unsupported("unbound method call through the class", node)
+            return self.apply_contract(c, [self.eval(a, st) for a in node.args], self._kwargs(node, st), st, node)
+        recv = self.eval(f.value, st)
         args = [self.eval(a, st) for a in node.args]
-        kw = {k.arg: self.eval(k.value, st) for k in node.keywords}
+        kw = self._kwargs(node, st)
         L = node.lineno
         if isinstance(recv.ty, TRec):
             cname = f"{recv.ty.name}.{name}"
+            if cname in self.registry and self.registry[cname].static:
+                return self.apply_contract(self.registry[cname], args, kw, st, node)
             if cname in self.registry:
                 c = self.registry[cname]
                 r = self.apply_contract(c, [recv] + args, kw, st, node)
@@ -1504,11 +1547,39 @@ class Engine:
     def _minmax(self, node, st, is_min):
         if len(node.args) == 2 and not node.keywords:
             a, b = self.eval(node.args[0], st), self.eval(node.args[1], st)
+            if isinstance(a.ty, TOpt) and a.ty.elem in (TInt, TReal):
+                a = self.coerce(a, a.ty.elem, st, node)
+            if isinstance(b.ty, TOpt) and b.ty.elem in (TInt, TReal):
+                b = self.coerce(b, b.ty.elem, st, node)
             a, b = self.unify(a, b, st, node)
             if a.ty in (TInt, TReal):
                 c = a.t <= b.t if is_min else a.t >= b.t
                 return Val(a.ty, z3.If(c, a.t, b.t))
         raise Unsupported("min/max form", node)
+
+
+_QCACHE: dict[int, bool] = {}
+
+
+def _has_quantifier(t) -> bool:
+    k = t.get_id()
+    if k in _QCACHE:
+        return _QCACHE[k]
+    seen = set()
+    stack = [t]
+    res = False
+    while stack:
+        x = stack.pop()
+        if z3.is_quantifier(x):
+            res = True
+            break
+        i = x.get_id()
+        if i in seen:
+            continue
+        seen.add(i)
+        stack.extend(x.children())
+    _QCACHE[k] = res
+    return res
 
 
 def _mentions(t, c) -> bool:
